@@ -240,6 +240,9 @@ def generate(rng, profile='engine'):
     scn['timeout'] = rng.choice([0.001, 0.003, 0.02])
     if tr in ('fd', 'pty'):
         scn['use_poll'] = rng.random() < 0.3
+    if tr == 'fd' and rng.random() < 0.12:
+        scn['fd_kind'] = 'tty'
+        scn['eof_flavour'] = rng.choice(['empty', 'empty', 'eio'])
     if tr in ('pty', 'pxssh'):
         scn['eof_flavour'] = rng.choice(['eio', 'eio', 'empty'])
         if rng.random() < 0.3:
@@ -504,6 +507,8 @@ class Violation(object):
 def bytes_read_by_cut(r):
     """Kernel truth: the bytes the code under test has taken from its descriptor so far."""
     tr = r.scn.get('transport')
+    if tr == 'fd' and r.scn.get('fd_kind') == 'tty':
+        return bytes(r.pty.out_log[:len(r.pty.out_log) - len(r.pty.out)])
     if tr == 'fd':
         p = r.fd_pipe.p
         return bytes(p.log[:len(p.log) - len(p.buf)])
